@@ -14,7 +14,7 @@ OPTS = [("swift-prefix", "--swift-prefix", ("swift", "prefix"), 0, "swift"),
         ("scala-package", "--scala-package", ("scala", "package"), 4, "scala"),
         ("scala-module", "--scala-module-name", ("scala", "module_name"), 5, None),
         ("go-package", "--go-package", ("go", "package"), 6, "go")]
-SRC = "#[typeshare]\npub struct Foo {\n    pub a: Bar,\n    pub url: Url,\n    pub id: u8,\n}\n\n#[typeshare]\npub struct Bar {\n    pub b: Vec<u8>,\n}\n"
+SRC = "#[typeshare]\npub struct Foo {\n    pub a: Bar,\n    pub url: Url,\n    pub id: u8,\n}\n\n#[typeshare]\npub struct Bar {\n    pub b: Vec<u8>,\n    pub labels: HashMap<String, String>,\n    pub opt: Option<String>,\n}\n"
 
 
 # identifiers that contain the acronym spellings used by the file-only part
@@ -185,7 +185,7 @@ def run(check):
                         return
     file_only(check)
     generate_config(check)
-    if not check.violations:
+    if not check.has_failing():
         existing_output(check)
     check.exhaustive = True
     check.extra["exhaustive_scope"] = "7 settings x {option absent, present} x {key absent, present} x {-c, ancestor search}"
@@ -244,6 +244,11 @@ def file_only(check):
                   "typescript": {"type_mappings": {"Url": mapped}},
                   "go": {"type_mappings": {"Url": mapped}, "uppercase_acronyms": ["id", "url"] + acr, "no_pointer_slice": rng.random() < 0.5},
                   "python": {"type_mappings": {"Url": mapped}}}
+        # mappings whose key is a container type, spelled the way the type prints (`HashMap<String,String>`): honoured by the back
+        # ends that look special types up in the table (TypeScript, Go, Python)
+        cmapped = "StringDict%d" % rng.randint(0, 99)
+        for L in ("typescript", "go", "python"):
+            tables[L]["type_mappings"]["HashMap<String,String>"] = cmapped
         for L in LANGS:
             with Scratch() as sc:
                 sc.write("ws/proj/src/lib.rs", SRC_ACR if L == "go" else SRC_GEN if L == "swift" else SRC)
@@ -278,6 +283,8 @@ def file_only(check):
                             lack = [c for c in tables["swift"]["default_generic_constraints"] if c not in have]
                             if lack:
                                 missing.append("default_generic_constraints %s on the generic parameter `%s`" % (lack, param))
+                if L in ("typescript", "go", "python") and cmapped not in text:
+                    missing.append("type mapping HashMap<String,String> -> %s" % cmapped)
                 if mapped not in text:
                     missing.append("type mapping Url -> %s" % mapped)
                 if L == "swift" and dec not in text:
